@@ -185,7 +185,19 @@ def runModel (c : Case) : String :=
       chunks := applyPlan (if c.h2 then [] else c.rsCut) (respData resp.body),
       trailers := (respTrailers resp.body).head? }
   let obs := clientReceive cfg c.cliRespStream d
-  String.intercalate " " ("SEEN" :: renderSeen seen ++ "CLIENT" :: renderClient obs)
+  let sk := match seen with
+    | .notCalled => "notcalled"
+    | .unary _ _ => "unary"
+    | .stream _ _ none => "stream-open"
+    | .stream _ _ (some none) => "stream-done"
+    | .stream _ _ (some (some _)) => "stream-err"
+  let ck := match obs with
+    | .err st => "err" ++ toString st.code.num
+    | .single _ _ => "single"
+    | .hang => "hang"
+    | .stream _ _ none _ => "stream-ok"
+    | .stream _ _ (some _) _ => "stream-err"
+  String.intercalate " " (("K=" ++ sk ++ "/" ++ ck) :: "SEEN" :: renderSeen seen ++ "CLIENT" :: renderClient obs)
 
 /-! ### the spec verdict on the observed output -/
 
@@ -262,7 +274,7 @@ def didOf (c : Case) : Spec.Call.Did Bytes :=
 
 def verdictOf (c : Case) (obs : List String) : String :=
   match obs with
-  | "SEEN" :: r =>
+  | _ :: "SEEN" :: r =>
     match pObsSeen r with
     | some ((got, _), "CLIENT" :: r1) =>
       if r1 = ["hang"] then "fail:never-hangs" else
